@@ -20,6 +20,8 @@ type comparison =
 
 val compOpp : comparison -> comparison
 
+val pred : nat -> nat
+
 val add : nat -> nat -> nat
 
 val mul : nat -> nat -> nat
@@ -57,6 +59,8 @@ val nth : nat -> 'a1 list -> 'a1 -> 'a1
 
 val nth_error : 'a1 list -> nat -> 'a1 option
 
+val last : 'a1 list -> 'a1 -> 'a1
+
 val rev : 'a1 list -> 'a1 list
 
 val concat : 'a1 list list -> 'a1 list
@@ -67,9 +71,13 @@ val flat_map : ('a1 -> 'a2 list) -> 'a1 list -> 'a2 list
 
 val fold_left : ('a1 -> 'a2 -> 'a1) -> 'a2 list -> 'a1 -> 'a1
 
+val fold_right : ('a2 -> 'a1 -> 'a1) -> 'a1 -> 'a2 list -> 'a1
+
 val existsb : ('a1 -> bool) -> 'a1 list -> bool
 
 val forallb : ('a1 -> bool) -> 'a1 list -> bool
+
+val filter : ('a1 -> bool) -> 'a1 list -> 'a1 list
 
 val combine : 'a1 list -> 'a2 list -> ('a1 * 'a2) list
 
@@ -187,6 +195,8 @@ module N :
 
   val ltb : n -> n -> bool
 
+  val min : n -> n -> n
+
   val max : n -> n -> n
 
   val div2 : n -> n
@@ -231,6 +241,10 @@ type ascii =
 
 val eqb0 : ascii -> ascii -> bool
 
+val n_of_digits : bool list -> n
+
+val n_of_ascii : ascii -> n
+
 module Z :
  sig
   val double : z -> z
@@ -259,9 +273,17 @@ module Z :
 
   val ltb : z -> z -> bool
 
+  val gtb : z -> z -> bool
+
   val eqb : z -> z -> bool
 
+  val max : z -> z -> z
+
+  val min : z -> z -> z
+
   val abs : z -> z
+
+  val abs_N : z -> n
 
   val to_nat : z -> nat
 
@@ -274,6 +296,8 @@ module Z :
   val pos_div_eucl : positive -> z -> z * z
 
   val div_eucl : z -> z -> z * z
+
+  val div : z -> z -> z
 
   val modulo : z -> z -> z
  end
@@ -322,6 +346,8 @@ type 'a res =
 
 val bind : 'a1 res -> ('a1 -> 'a2 res) -> 'a2 res
 
+val res_map : ('a1 -> 'a2) -> 'a1 res -> 'a2 res
+
 val eNotEnoughBits : n
 
 val eOverflow : n
@@ -331,6 +357,14 @@ val eTooManyBits : n
 val eZeroSize : n
 
 val eTooSmall : n
+
+val eInvalidHex : n
+
+val eNotEnoughRefs : n
+
+val eRefsOverflow : n
+
+val eOther : n
 
 val eFuel : n
 
@@ -784,5 +818,626 @@ val path_of_sx : sx -> nat list
 val run_proof : sx -> sx
 
 val run_key : sx -> sx
+
+val bits_cmp : bits -> bits -> comparison
+
+val bits_ltb : bits -> bits -> bool
+
+val bits_eqb0 : bits -> bits -> bool
+
+type cell0 =
+| Cell0 of bits * cell0 list
+
+val mk_cell : bits -> cell0 list -> cell0 res
+
+type form =
+| FShort
+| FLong
+| FSame of bool
+
+val lim_width : nat -> nat
+
+val hml_short : bits -> bits
+
+val hml_long : nat -> bits -> bits
+
+val hml_same : nat -> bool -> nat -> bits
+
+val enc_label : form -> nat -> bits -> bits
+
+type 'v apt =
+| ALeaf of form * bits * 'v
+| AFork of form * bits * 'v apt * 'v apt
+
+val cells_of : ('a1 -> bits * cell0 list) -> nat -> 'a1 apt -> cell0 res
+
+val lcp_go : bits -> bits -> bits res
+
+val enc_label_go : nat -> bits -> bits
+
+val binsert : (bits * 'a1) -> (bits * 'a1) list -> (bits * 'a1) list
+
+val bsort : (bits * 'a1) list -> (bits * 'a1) list
+
+val split_keys :
+  nat -> (bits * 'a1) list -> ((bits * 'a1) list * (bits * 'a1) list) res
+
+val encode_map :
+  ('a1 -> bits * cell0 list) -> nat -> nat -> (bits * 'a1) list -> cell0 res
+
+val encode :
+  ('a1 -> bits * cell0 list) -> nat -> (bits * 'a1) list -> cell0 res
+
+val encode_e :
+  ('a1 -> bits * cell0 list) -> nat -> (bits * 'a1) list -> cell0 res
+
+val read_unary1 : bits -> (nat * bits) res
+
+val read_lim : nat -> bits -> (n * bits) res
+
+val load_label0 : nat -> nat -> bits -> (bits * bits) res
+
+val vdec_res :
+  (bits -> cell0 list -> 'a1 option) -> bits -> cell0 list -> 'a1 res
+
+val map_inner :
+  (bits -> cell0 list -> 'a1 option) -> nat -> nat -> cell0 -> bits ->
+  (bits * 'a1) list res
+
+val decode :
+  (bits -> cell0 list -> 'a1 option) -> nat -> cell0 -> (bits * 'a1) list res
+
+val decode_e :
+  (bits -> cell0 list -> 'a1 option) -> nat -> cell0 -> (bits * 'a1) list res
+
+val replace_val :
+  ('a1 -> 'a1 -> bool) -> 'a1 -> 'a2 -> ('a1 * 'a2) list -> ('a1 * 'a2) list
+  option
+
+val insert_at :
+  ('a1 -> 'a1 -> bool) -> 'a1 -> 'a2 -> ('a1 * 'a2) list -> ('a1 * 'a2) list
+
+val put :
+  ('a1 -> 'a1 -> bool) -> ('a1 -> 'a1 -> bool) -> 'a1 -> 'a2 -> ('a1 * 'a2)
+  list -> ('a1 * 'a2) list
+
+val get : ('a1 -> 'a1 -> bool) -> 'a1 -> ('a1 * 'a2) list -> 'a2 option
+
+val puts :
+  ('a1 -> 'a1 -> bool) -> ('a1 -> 'a1 -> bool) -> ('a1 * 'a2) list ->
+  ('a1 * 'a2) list -> ('a1 * 'a2) list
+
+val flip_first : bits -> bits
+
+val signed_ltb : bits -> bits -> bool
+
+val int_key : nat -> z -> bits
+
+val bytes_key : n list -> bits
+
+val addr_key : (z * n list) -> bits
+
+val bytes_of_bits0 : nat -> bits -> n list
+
+val addr_unkey : bits -> z * n list
+
+val venc_val : n -> bits * cell0 list
+
+val vdec_val : bits -> cell0 list -> n option
+
+val sx_cell : cell0 -> sx
+
+val cell_sx : sx -> cell0 option
+
+val sx_res0 : ('a1 -> sx) -> 'a1 res -> sx
+
+val sx_items : (bits * n) list -> sx
+
+val items_sx : sx list -> (bits * n) list option
+
+val klt_of : bool -> bits -> bits -> bool
+
+val enc_mode : bool -> nat -> (bits * n) list -> cell0 res
+
+val dec_mode : bool -> nat -> cell0 -> (bits * n) list res
+
+val run_encode : sx -> sx
+
+val run_raw : sx -> sx
+
+val run_decode : sx -> sx
+
+val form_sx : sx -> form option
+
+val apt_sx : sx -> n apt option
+
+val run_cells : sx -> sx
+
+val run_oplist :
+  bool -> (bits * n) list -> sx list -> sx list * (bits * n) list
+
+val run_ops0 : sx -> sx
+
+val addr_items : sx list -> (bits * n) list option
+
+val sx_addr_item : (bits * n) -> sx
+
+val run_addr : sx -> sx
+
+type strategy =
+| BestPing
+| FirstWorking
+| OtherStrategy
+
+type conn = { c_alive : bool; c_seqno : n; c_rtt : z }
+
+val two32 : n
+
+val u32 : n -> n
+
+val seq32 : conn -> n
+
+val max_step : n -> conn -> n
+
+val max_seqno : conn list -> n
+
+val current_go : n -> conn -> bool
+
+val usable_go : n -> conn -> bool
+
+val find_first_working : n -> conn list -> nat -> nat option
+
+val better : nat -> conn -> (nat * z) option -> (nat * z) option
+
+val find_best_ping :
+  n -> conn list -> nat -> (nat * z) option -> (nat * z) option
+
+val update_best : strategy -> conn list -> nat option -> nat option
+
+type msg = nat * n
+
+type agent =
+| ARun
+| AW of nat
+
+type wres =
+| ROk
+| RTimeout
+| RCancel
+
+type wait_pc =
+| WNew
+| WSubL
+| WWait
+| WUnsub of wres
+| WDone of wres
+| WPanicked
+
+type run_pc =
+| RIdle
+| RWantR of msg
+| RNotify of msg * bool * nat list
+| RUpd
+
+val upd_cap : nat
+
+type state = { head : (nat -> n); pend : msg list; updq : msg list;
+               best : nat option; readers : nat; writer : agent option;
+               wl : (n * nat) list; next_id : n; rpc : run_pc;
+               wpc : (nat -> wait_pc); wid : (nat -> n);
+               wch : (nat -> msg option); wgot : (nat -> msg option);
+               woff : (nat -> msg list); log : msg list }
+
+val set_head : state -> (nat -> n) -> state
+
+val set_pend : state -> msg list -> state
+
+val set_updq : state -> msg list -> state
+
+val set_best : state -> nat option -> state
+
+val set_readers : state -> nat -> state
+
+val set_writer : state -> agent option -> state
+
+val set_wl : state -> (n * nat) list -> state
+
+val set_next_id : state -> n -> state
+
+val set_rpc : state -> run_pc -> state
+
+val set_wpc : state -> (nat -> wait_pc) -> state
+
+val set_wid : state -> (nat -> n) -> state
+
+val set_wch : state -> (nat -> msg option) -> state
+
+val set_wgot : state -> (nat -> msg option) -> state
+
+val set_woff : state -> (nat -> msg list) -> state
+
+val set_log : state -> msg list -> state
+
+val fupd : (nat -> 'a1) -> nat -> 'a1 -> nat -> 'a1
+
+val remove_nth : nat -> 'a1 list -> 'a1 list
+
+type label =
+| LSetHead of nat * n
+| LPublish of nat
+| LTake
+| LRLock of nat list
+| LSend
+| LRUnlock
+| LTick
+| LUpdDone of (bool * z) list
+| LSubLock of nat
+| LSubBody of nat
+| LRecv of nat
+| LLeave of nat * wres
+| LUnsub of nat
+
+val lock_free : state -> bool
+
+val is_writer : state -> agent -> bool
+
+val mem : nat -> nat list -> bool
+
+val is_order : nat list -> state -> bool
+
+val same_best : state -> nat -> bool
+
+val newer : msg option -> msg -> msg
+
+val mk_conns : nat -> (nat -> n) -> (bool * z) list -> conn list
+
+val step0 : strategy -> nat -> (nat -> n) -> state -> label -> state option
+
+val init_state : (nat -> n) -> nat option -> state
+
+val strat_of : n -> strategy
+
+val conn_of : sx -> conn option
+
+val conns_of : sx list -> conn list option
+
+val prev_of : sx -> nat option option
+
+val out_choice : nat option -> sx
+
+val run_ub : sx -> sx
+
+val grid_seqnos : n list
+
+val grid_rtts : z list
+
+val grid_conns : conn list
+
+val prevs : nat -> nat option list
+
+val run_ubx : sx -> sx
+
+type mop =
+| MLabel of label
+| MPublish of msg
+| MRLock
+| MSendAll
+
+type agent_id =
+| GConn of nat
+| GRun
+| GWaiter of nat
+
+type okind =
+| KDone
+| KSub of nat
+| KBest
+
+type pend_op = { p_op : nat; p_agent : agent_id; p_script : mop list;
+                 p_kind : okind }
+
+val msg_eqb : msg -> msg -> bool
+
+val index_of0 : msg -> msg list -> nat -> nat option
+
+val send_all : strategy -> nat -> (nat -> n) -> nat -> state -> state * bool
+
+val exec_mop : strategy -> nat -> (nat -> n) -> state -> mop -> state * bool
+
+val advance :
+  strategy -> nat -> (nat -> n) -> state -> mop list -> state * mop list
+
+val finish : okind -> state -> sx
+
+val settle_pass :
+  strategy -> nat -> (nat -> n) -> state -> pend_op list -> ((state * pend_op
+  list) * sx list) * bool
+
+val settle :
+  strategy -> nat -> (nat -> n) -> nat -> state -> pend_op list ->
+  (state * pend_op list) * sx list
+
+val agent_eqb : agent_id -> agent_id -> bool
+
+val busy : pend_op list -> agent_id -> bool
+
+val wants_lock : pend_op -> bool
+
+val launch :
+  strategy -> nat -> (nat -> n) -> nat -> agent_id -> mop list -> okind -> sx
+  -> state -> pend_op list -> (sx * state) * pend_op list
+
+val small : n -> nat
+
+val set_nth_obs : nat -> (bool * z) -> (bool * z) list -> (bool * z) list
+
+val do_op :
+  strategy -> nat -> (nat -> n) -> nat -> nat -> sx -> (bool * z) list ->
+  state -> pend_op list -> ((sx * (bool * z) list) * state) * pend_op list
+
+val op_index : sx -> nat
+
+val ins_by_index : sx -> sx list -> sx list
+
+val sort_by_index : sx list -> sx list
+
+val run_ops1 :
+  strategy -> nat -> (nat -> n) -> nat -> nat -> sx list -> (bool * z) list
+  -> state -> pend_op list -> sx list
+
+val try_step : strategy -> nat -> (nat -> n) -> state -> label -> state
+
+val deliver : strategy -> nat -> (nat -> n) -> state -> nat -> n -> state
+
+val wait_scenario :
+  strategy -> nat -> (nat -> n) -> state -> (nat * n) list -> wres -> sx
+
+val nth_tgt : sx list -> nat -> n
+
+val run_walk : sx -> sx
+
+val heads_of : sx list -> (nat * n) list
+
+val run_wait : sx -> sx
+
+val run_repro : sx -> sx
+
+type bytes0 = n list
+
+val pEdKeyLen : n
+
+val beqb : bytes0 -> bytes0 -> bool
+
+val bytes_of_string : string -> bytes0
+
+val blen : bytes0 -> z
+
+val byte_at : z -> z -> n
+
+val be32 : z -> bytes0
+
+val le0 : z -> bytes0
+
+val le64 : z -> bytes0
+
+val be64 : z -> bytes0
+
+val be_val : bytes0 -> z
+
+val to_int64 : z -> z
+
+val be_min_fuel : nat -> n -> bytes0 -> bytes0
+
+val be_min : n -> bytes0
+
+val nib : n -> n option
+
+val hex_decode : bytes0 -> bytes0 option
+
+val hexdigit : n -> n
+
+val hex_encode : bytes0 -> bytes0
+
+val digit : n -> z option
+
+val digits_val : z -> bytes0 -> z option
+
+val parse_int32 : bytes0 -> z option
+
+val split_colon : bytes0 -> bytes0 -> bytes0 list
+
+type proof = { p_address : bytes0; p_ts : z; p_domain : bytes0;
+               p_signature : bytes0; p_payload : bytes0; p_state_init : 
+               bytes0 }
+
+type parsed0 = { m_wc : z; m_addr : bytes0; m_ts : z; m_domain : bytes0;
+                 m_sig : bytes0; m_payload : bytes0 }
+
+val tonProofPrefix : bytes0
+
+val tonConnectPrefix : bytes0
+
+val defaultLifeTimeProof : z
+
+val defaultLifeTimePayload : z
+
+val lifetime_or_default : z -> z -> z
+
+val convert : (bytes0 -> bytes0 option) -> proof -> parsed0 res
+
+val index_colon_go : bytes0 -> bytes0 -> (bytes0 * bytes0) option
+
+val index_colon : bytes0 -> (bytes0 * bytes0) option
+
+val pad_hex64 : bytes0 -> bytes0
+
+val parse_account_id : bytes0 -> (z * bytes0) res
+
+val message_layout : parsed0 -> bytes0
+
+val create_message : (bytes0 -> bytes0) -> parsed0 -> bytes0
+
+val unixToInternal : z
+
+val wrap64 : z -> z
+
+val clamp64 : z -> z
+
+val giga : z
+
+val since : z -> z -> z
+
+val expired : z -> z -> z -> bool
+
+val generate_payload :
+  (bytes0 -> bytes0 -> bytes0) -> bytes0 -> bytes0 -> z -> z -> bytes0
+
+val check_payload :
+  (bytes0 -> bytes0 -> bytes0) -> bytes0 -> z -> z -> bytes0 -> bool res
+
+val static_domain : bytes0 -> bytes0 -> bool res
+
+type stk =
+| StTiny of z
+| StInt of z
+| StOther
+
+type exec_result =
+| ExErr
+| ExRet of n * stk list
+
+val key_of_int : z -> bytes0 option
+
+val get_wallet_pubkey : exec_result -> bytes0 option
+
+type cell1 =
+| Cell1 of n * bool list * cell1 list * bytes0 option
+
+val c_ty : cell1 -> n
+
+val c_bits : cell1 -> bool list
+
+val c_refs : cell1 -> cell1 list
+
+val c_hash : cell1 -> bytes0 option
+
+val tyPruned : n
+
+val tyLibrary : n
+
+val empty_cell_hash : bytes0
+
+val zero_cell : cell1
+
+type rd = bool list * cell1 list
+
+val rd_bit : rd -> (bool * rd) res
+
+val rd_skip : nat -> rd -> rd res
+
+val rd_ref : rd -> (cell1 * rd) res
+
+val rd_maybe_ref : rd -> (cell1 option * rd) res
+
+val parse_state_init :
+  (cell1 -> bool) -> cell1 -> (cell1 option * cell1 option) res
+
+type layout = { l_off : nat; l_dict : bool }
+
+val bytes_of_bits1 : nat -> bool list -> bytes0
+
+val data_key : (cell1 -> bool) -> layout -> cell1 -> bytes0 res
+
+type known_table = (bytes0 * layout option) list
+
+val lookup : bytes0 -> known_table -> layout option option
+
+val parse_state_init_key :
+  (bytes0 -> cell1 list res) -> (cell1 -> bool) -> (cell1 -> bool) ->
+  known_table -> bytes0 -> bytes0 res
+
+val compare_state_init :
+  (bytes0 -> cell1 list res) -> bytes0 -> bytes0 -> bool res
+
+val ed_verify :
+  (bytes0 -> bytes0 -> bytes0 -> bool) -> bytes0 -> bytes0 -> bytes0 -> bool
+  res
+
+type key_source =
+| FromGetMethod
+| FromStateInit
+
+val wallet_key :
+  (bytes0 -> cell1 list res) -> (cell1 -> bool) -> (cell1 -> bool) ->
+  known_table -> ((z * bytes0) -> exec_result) -> (z * bytes0) -> bytes0 ->
+  (bytes0 * key_source) res
+
+val check_proof_src :
+  (bytes0 -> bytes0) -> (bytes0 -> bytes0 -> bytes0 -> bool) -> (bytes0 ->
+  bytes0 option) -> (bytes0 -> cell1 list res) -> (cell1 -> bool) -> (cell1
+  -> bool) -> known_table -> ((z * bytes0) -> exec_result) -> (bytes0 -> bool
+  res) -> (bytes0 -> bool res) -> z -> z -> proof -> (bytes0 * key_source) res
+
+val check_proof :
+  (bytes0 -> bytes0) -> (bytes0 -> bytes0 -> bytes0 -> bool) -> (bytes0 ->
+  bytes0 option) -> (bytes0 -> cell1 list res) -> (cell1 -> bool) -> (cell1
+  -> bool) -> known_table -> ((z * bytes0) -> exec_result) -> (bytes0 -> bool
+  res) -> (bytes0 -> bool res) -> z -> z -> proof -> bytes0 res
+
+val dec_digits : nat -> z -> bytes0 -> bytes0
+
+val print_int : z -> bytes0
+
+val to_raw : z -> bytes0 -> bytes0
+
+val version_layout : n -> layout option
+
+val known_of : (n * bytes0) list -> known_table
+
+val gen_known_hashes : (n * n list) list
+
+val known_wallets : known_table
+
+val out_res : ('a1 -> sx) -> 'a1 res -> sx
+
+val opt_bytes : sx -> bytes0 option
+
+val table_lookup : bytes0 -> sx list -> bytes0 -> bytes0
+
+val zeros32 : bytes0
+
+val hmac_of : sx list -> bytes0 -> bytes0 -> bytes0
+
+val verify_of : sx list -> bytes0 -> bytes0 -> bytes0 -> bool
+
+val cell_of_sx : nat -> sx -> cell1
+
+val boc_of : sx -> bytes0 -> cell1 list res
+
+val stk_of : sx -> stk
+
+val exec_of : sx -> exec_result
+
+val bool_of : sx -> bool
+
+val run_msg : sx -> sx
+
+val sx_acc : (z * bytes0) -> sx
+
+val run_conv : sx -> sx
+
+val run_payload : sx -> sx
+
+val run_pubkey : sx -> sx
+
+val run_stateinit : sx -> sx
+
+val proof_of_sx : sx -> proof option
+
+val run_check : sx -> sx
+
+val nominal_now : z
+
+val run_clock : sx -> sx
 
 val run : string -> sx -> sx
